@@ -175,7 +175,14 @@ Definition p_remove (p : option key) (s : store) : store * out :=
   match p with None => (s, RErr) | Some p => (remove_by_prefix p s, ROk) end.
 
 (* ---- the state machine driven by the harness *)
-Record state := mkState { raw : store; handles : list (option key) }.
+(* a writer returned by PrefixStorage.BatchFunc(ctx, batchsize, wo): the prefix is captured ONCE when the writer is
+   made (None: the storage was closed then -- add/done fail); the pending batch is written when it holds batchsize
+   records, and by done; done cancels the writer.  A later Close of the PrefixStorage does not touch the writer:
+   its batches keep the captured prefix (db.go BatchFuncWithNewBatch, prefix.go BatchFunc) *)
+Record writer := mkWriter { w_prefix : option key; w_size : nat; w_pending : list brec; w_live : bool }.
+Definition dead_writer : writer := mkWriter None 0 [] false.
+
+Record state := mkState { raw : store; handles : list (option key); writers : list writer }.
 
 Inductive op :=
 | OGet (h : nat) (k : key)
@@ -189,7 +196,10 @@ Inductive op :=
 | ORawPut (k : key) (v : val)
 | ORawRemoveByPrefix (p : key)
 | ORawBatchRemove (r : option range) (limit : Z)
-| ODump.
+| ODump
+| OWOpen (h : nat) (size : nat)       (* BatchFunc through handle h; the writer gets the next index *)
+| OWAdd (w : nat) (r : brec)          (* the writer's add function with one Put / Delete *)
+| OWDone (w : nat).                   (* the writer's done function *)
 
 Definition handle (st : state) (h : nat) : option key := nth h (handles st) None.
 Fixpoint set_nth {A} (n : nat) (x : A) (l : list A) : list A :=
@@ -201,7 +211,7 @@ Fixpoint set_nth {A} (n : nat) (x : A) (l : list A) : list A :=
 
 Definition step (st : state) (o : op) : state * out :=
   let s := raw st in
-  let upd (x : store * out) := (mkState (fst x) (handles st), snd x) in
+  let upd (x : store * out) := (mkState (fst x) (handles st) (writers st), snd x) in
   match o with
   | OGet h k => (st, p_get (handle st h) k s)
   | OExists h k => (st, p_exists (handle st h) k s)
@@ -210,7 +220,7 @@ Definition step (st : state) (o : op) : state * out :=
   | OBatch h b => upd (p_batch (handle st h) b s)
   | OIter h r asc stop => (st, p_iter (handle st h) r asc stop s)
   | ORemove h => upd (p_remove (handle st h) s)
-  | OClose h => (mkState s (set_nth h None (handles st)), ROk)
+  | OClose h => (mkState s (set_nth h None (handles st)) (writers st), ROk)
   | ORawPut k v => upd (sput k v s, ROk)
   | ORawRemoveByPrefix p => upd (remove_by_prefix p s, ROk)
   | ORawBatchRemove r limit =>
@@ -220,6 +230,26 @@ Definition step (st : state) (o : op) : state * out :=
       | None => (st, RFuel)
       end
   | ODump => (st, RKVs s)
+  | OWOpen h size => (mkState s (handles st) (writers st ++ [mkWriter (handle st h) size [] true]), ROk)
+  | OWAdd w r =>
+      let wr := nth w (writers st) dead_writer in
+      match w_prefix wr, w_live wr with
+      | Some p, true =>
+          let pend := w_pending wr ++ [r] in
+          if Nat.leb (w_size wr) (List.length pend)
+          then (mkState (apply_batch (pbatch p pend) s) (handles st)
+                        (set_nth w (mkWriter (Some p) (w_size wr) [] true) (writers st)), ROk)
+          else (mkState s (handles st) (set_nth w (mkWriter (Some p) (w_size wr) pend true) (writers st)), ROk)
+      | _, _ => (st, RErr)
+      end
+  | OWDone w =>
+      let wr := nth w (writers st) dead_writer in
+      match w_prefix wr, w_live wr with
+      | Some p, true =>
+          (mkState (apply_batch (pbatch p (w_pending wr)) s) (handles st)
+                   (set_nth w (mkWriter (Some p) (w_size wr) [] false) (writers st)), ROk)
+      | _, _ => (st, RErr)
+      end
   end.
 
 (* ---- correspondence: a case = prefixes of the handles, then (op, observed output) in order *)
@@ -243,7 +273,7 @@ Fixpoint run_check (st : state) (l : list (op * out)) : bool :=
   end.
 
 Definition case := (list key * list (op * out))%type.
-Definition check (c : case) : bool := run_check (mkState [] (map Some (fst c))) (snd c).
+Definition check (c : case) : bool := run_check (mkState [] (map Some (fst c)) []) (snd c).
 
 (* shorthand used by the generated case files *)
 Definition K := unhex.
